@@ -20,6 +20,7 @@ import (
 	"context"
 	"fmt"
 	"runtime"
+	"strings"
 	"sync"
 	"sync/atomic"
 	"testing"
@@ -98,6 +99,15 @@ func (g *c17Log) stuck(openhi int) {
 	g.w.Emit(vx.M{"ev": "stuck", "openhi": openhi})
 }
 
+// rzstuck: resize `id` was found never to complete, at a barrier: nothing is held, nobody is running
+// (see c17AwaitResizes); `how` says how that was established.
+func (g *c17Log) rzstuck(id int, how string) {
+	atomic.StoreInt32(&c17Patient, 0)
+	g.mu.Lock()
+	defer g.mu.Unlock()
+	g.w.Emit(vx.M{"ev": "rzstuck", "id": id, "open": g.open, "how": how})
+}
+
 func (g *c17Log) note(rec vx.M) {
 	g.mu.Lock()
 	defer g.mu.Unlock()
@@ -108,9 +118,18 @@ func (g *c17Log) note(rec vx.M) {
 // c17Probe: with nothing held and every resize completed, exactly `cap` tokens must be obtainable
 // (released capacity is usable again) and one more must not be.  Both observations are logged as
 // ordinary events; the deadline for the positive part is generous.
+//
+// A cap too large to be filled (values near maxCapacity) is probed from below only: a handful of
+// tokens must be obtainable.
+const c17ProbeMax = 16
+
 func c17Probe(g *c17Log, s *Semaphore, cap int) {
 	got := 0
-	for i := 0; i < cap; i++ {
+	want, exact := cap, true
+	if cap > c17ProbeMax {
+		want, exact = 6, false
+	}
+	for i := 0; i < want; i++ {
 		ctx, cancel := context.WithTimeout(context.Background(), c17Patience())
 		g.accInv("probe")
 		err := s.AcquireWithContext(ctx)
@@ -123,15 +142,17 @@ func c17Probe(g *c17Log, s *Semaphore, cap int) {
 		g.acc("probe")
 		got++
 	}
-	ctx, cancel := context.WithTimeout(context.Background(), 30*time.Millisecond)
-	g.accInv("probe")
-	if err := s.AcquireWithContext(ctx); err == nil {
-		g.acc("probe") // beyond the cap: TLC rejects it
-		got++
-	} else {
-		g.accErr("probe")
+	if exact {
+		ctx, cancel := context.WithTimeout(context.Background(), 30*time.Millisecond)
+		g.accInv("probe")
+		if err := s.AcquireWithContext(ctx); err == nil {
+			g.acc("probe") // beyond the cap: TLC rejects it
+			got++
+		} else {
+			g.accErr("probe")
+		}
+		cancel()
 	}
-	cancel()
 	for ; got > 0; got-- {
 		g.closing()
 		s.Release()
@@ -156,6 +177,99 @@ func c17WaitDone(ch <-chan struct{}, d time.Duration) bool {
 		return true
 	case <-time.After(d):
 		return false
+	}
+}
+
+// c17Tuners looks at the goroutines of the process that belong to SetMaxCount calls (started by
+// SetMaxCount or running code of it): `blocked` of them sit in a channel operation nobody can complete
+// from outside the semaphore - the select / receive inside Weighted.Acquire, or the wait for the
+// previous call's completion - and `active` are anywhere else (runnable, running, parked at the
+// harness's gate, ...).  A goroutine that has been woken is runnable at once (the waker marks it), so a
+// blocked one has not been woken by anything that happened before the dump.
+func c17Tuners() (blocked, active int) {
+	buf := make([]byte, 1<<20)
+	for {
+		n := runtime.Stack(buf, true)
+		if n < len(buf) {
+			buf = buf[:n]
+			break
+		}
+		buf = make([]byte, 2*len(buf))
+	}
+	for _, blk := range strings.Split(string(buf), "\n\n") {
+		if !strings.HasPrefix(blk, "goroutine ") || !strings.Contains(blk, "SetMaxCount") {
+			continue
+		}
+		hdr := blk
+		if i := strings.IndexByte(blk, '\n'); i >= 0 {
+			hdr = blk[:i]
+		}
+		state := ""
+		if i := strings.IndexByte(hdr, '['); i >= 0 {
+			state = hdr[i+1:]
+		}
+		if (strings.HasPrefix(state, "select") || strings.HasPrefix(state, "chan receive")) && !strings.Contains(blk, "c17Gate") {
+			blocked++
+		} else {
+			active++
+		}
+	}
+	return
+}
+
+// c17Leaked counts the background goroutines of calls already declared stuck (they stay in the process).
+var c17Leaked int
+
+// c17AwaitResizes is called at a barrier: every token has been given back (the Release calls have
+// returned), no acquirer is left, the gate is open.  Every SetMaxCount call must complete now.  A call
+// is declared stuck ("never completes") when its done channel is open and ALL background goroutines of
+// SetMaxCount calls are blocked inside the semaphore / behind each other, none runnable, in two
+// goroutine dumps in a row: with nothing held and nobody running nothing can ever wake them.  (Only if
+// the goroutines cannot be told from the dump the generous deadline decides.)  Returns the number of
+// calls declared stuck.
+func c17AwaitResizes(g *c17Log, dones []chan struct{}, ids []int) int {
+	deadline := time.Now().Add(c17Patience())
+	pending := func() []int {
+		var p []int
+		for i, d := range dones {
+			select {
+			case <-d:
+			default:
+				p = append(p, i)
+			}
+		}
+		return p
+	}
+	quietDumps := 0
+	for {
+		p := pending()
+		if len(p) == 0 {
+			return 0
+		}
+		how := ""
+		blocked, active := c17Tuners()
+		if active == 0 && blocked == c17Leaked+len(p) {
+			if quietDumps++; quietDumps >= 2 {
+				how = "barrier"
+			}
+		} else {
+			quietDumps = 0
+		}
+		if how == "" && time.Now().After(deadline) {
+			how = "deadline"
+		}
+		if how != "" {
+			if p2 := pending(); len(p2) != len(p) {
+				quietDumps = 0
+				continue
+			}
+			for _, i := range p {
+				g.rzstuck(ids[i], how)
+			}
+			c17Leaked += len(p)
+			return len(p)
+		}
+		time.Sleep(5 * time.Millisecond)
 	}
 }
 
